@@ -44,6 +44,8 @@ pub fn eval(op: &str, a: &[&str]) -> Option<String> {
 }
 
 pub fn gen(ctx: &Ctx, rng: &mut Rng, out: &mut Vec<String>) {
+    // call histories on one spectrum object (queries, in-place edits, clones, replacement by its own fold / marginal / projection)
+    crate::stat::gen_hist(rng, if ctx.tier_thorough { 600 } else { 60 }, 4, out);
     // whole operator: every admissible target of every shape in the grid
     let mut shp = if ctx.tier_thorough { let mut s = shapes::all_shapes(1, 3, 1, 7); s.extend(shapes::all_shapes(4, 4, 1, 3)); s }
                   else { let mut s = shapes::all_shapes(1, 2, 1, 7); s.extend(shapes::all_shapes(3, 3, 1, 3)); s.extend(shapes::all_shapes(4, 4, 1, 2)); s };
